@@ -82,6 +82,12 @@ def opStep (st : St) (op : List String) : Option St :=
       let r : Record := ⟨⟨as, an⟩, ⟨vs, vn⟩, b, dr.toNat, 0, DriverH.statusOfInt stt⟩
       some { st with seg := { st.seg with gen := genFinish (genStart st.seg.gen), cur := r }, out := "w" :: st.out }
     | _ => none
+  -- an orderly restart of the daemon (writer dropped, `ShmWriter::new` on the same path): a usable segment is taken over as it
+  -- is; an unusable one (version or generation 0) is re-initialised in place.  Not combined with `x` in one session.
+  | ["r"] =>
+    if !st.alts.isEmpty then none
+    else if st.seg.openable then some { st with out := "r" :: st.out }
+    else some { st with seg := { version := 1, gen := 0, cur := Record.empty }, out := "r" :: st.out }
   | ["g", v] => v.toNat?.map fun n =>
     match st.alts.getLast? with
     | some a => { st with alts := st.alts.dropLast ++ [{ a with gen := n % 65536 }], out := "p" :: st.out }
@@ -177,6 +183,7 @@ def line (args impl : List String) : String :=
         let blur := if os.any (fun p => decide (p.1.mono.toNs < p.1.r.asOf.toNs)) then ["nearBlur"] else []
         let odd := (if ops.any (fun o => o.head? == some "g") then ["poked"] else []) ++
           (if ops.any (fun o => o.head? == some "x") then ["replaced"] else []) ++
+          (if ops.any (fun o => o.head? == some "r") then ["restarted"] else []) ++
           (if ops.any (fun o => o.head? == some "qn" || o.head? == some "cqn") then ["repeated"] else [])
         let growth := if os.any (fun p => decide (p.1.mono.toNs > p.1.r.asOf.toNs ∧ p.1.r.drift > 0 ∧ p.1.r.drift < 1000000000 ∧ C05.exactGrowth p.1 ≥ 1)) then ["growth"] else []
         s!"{model} | {v05} {v06} {v14} {v12} {v17} {v03} {v01} | {String.intercalate "," (["session"] ++ multi ++ aged ++ bad ++ blur ++ odd ++ growth)}"
